@@ -352,10 +352,10 @@ theorem property_global_partial (kws : List Str) (glob : Str) :
       rcases hh with h | h
       · exact star_blocks kws _ h
       · exact blocked kws ⟨none, glob⟩ h
-    rw [hout]
-    by_cases he : ([] : List Str) = lineToSlice glob
-    · left; simp [he]
-    · right; simp [he]
+    by_cases he : lineToSlice glob = []
+    · left; simp [hout, he]
+    · have he' : ¬ ([] : List Str) = lineToSlice glob := fun e => he e.symm
+      right; simp [hout, he']
   · have hout := untouched kws ⟨none, glob⟩ hh
     simp only at hout
     left; simp [hout]
@@ -411,10 +411,7 @@ example : (run [[107]] [("i1", [75])] []).lines = [[75]] := by decide
 example : (run [[107]] [("s", [120]), ("i1", [107])] []).lines = [[120]] := by decide
 -- the hypotheses of `blocked`, `untouched`, `multiline_no_bypass` are satisfiable
 example : ∃ l ∈ lineToSlice [120, 10, 9, 107], ∃ k ∈ [[107]], k ≠ [] ∧ firstToken l = k := by decide
-example : ¬ Hit [[107]] (lineToSlice [120, 10, 107, 120]) := by
-  intro h; rcases h with h | ⟨l, hl, k, hk, hne, ht⟩
-  · revert h; decide
-  · simp at hk; subst hk; revert hl ht; simp [lineToSlice, trimRightNL, splitNL, nl]; decide
+example : ¬ Hit [[107]] (lineToSlice [120, 10, 107, 120]) := by unfold Hit; decide
 example : oracle [[107]] [("s", [107])] [] [[107]] = some "annotation-keyword-leaked" := by decide
 example : oracle [star] [("s", [120])] [] [[120]] = some "star-leaked" := by decide
 example : oracle [[107]] [("s", [120])] [] [] = some "clean-snippet-dropped" := by decide
